@@ -128,7 +128,6 @@ int vf_run_case(Src &s, Report &r) {
 				int depth = 2 + (int) s.pick(3);
 				if (tc.mode == ROLL_UP && depth != tc.depth) {
 					if ((X & X_RU_DEPTH) && !tc.empty(tc.disp)) { depth = tc.depth; ++excluded; }
-					else if (tc.row + 1 < depth) depth = tc.depth;	// the larger window would not fit above the base row: the standard leaves this open
 					else if (!tc.empty(tc.disp)) nt_window = true;
 				}
 				if ((tc.mode == POP_ON || tc.mode == PAINT_ON) && !tc.empty(tc.disp)) nt_modeswitch = true;
